@@ -51,6 +51,104 @@ pub use eval_fn::{
 };
 
 
+/// Verification hook (coverage instrumentation only): a per-thread
+/// trace holding one digest of all mutable resolution state per
+/// resolver pass. Compiled only with `--cfg hlorenzi_customasm_verif`.
+#[cfg(hlorenzi_customasm_verif)]
+pub mod verif
+{
+    use crate::*;
+    use std::hash::{Hash, Hasher};
+
+
+    #[derive(Clone, Debug)]
+    pub struct PassRecord
+    {
+        pub iteration: usize,
+        pub is_first: bool,
+        pub is_last: bool,
+        pub resolved: bool,
+        pub state_digest: u64,
+    }
+
+
+    thread_local!
+    {
+        static TRACE: std::cell::RefCell<Vec<PassRecord>> =
+            std::cell::RefCell::new(Vec::new());
+    }
+
+
+    pub fn record_pass(
+        iteration: usize,
+        is_first: bool,
+        is_last: bool,
+        resolved: bool,
+        defs: &asm::ItemDefs)
+    {
+        let mut hasher = std::collections::hash_map::DefaultHasher::new();
+
+        for symbol in defs.symbols.defs.iter().flatten()
+        {
+            format!("{:?}", symbol.value).hash(&mut hasher);
+            symbol.resolved.hash(&mut hasher);
+        }
+
+        for instr in defs.instructions.defs.iter().flatten()
+        {
+            format!("{:?}", instr.encoding).hash(&mut hasher);
+            instr.resolved.hash(&mut hasher);
+        }
+
+        for elem in defs.data_elems.defs.iter().flatten()
+        {
+            format!("{:?}", elem.encoding).hash(&mut hasher);
+            elem.resolved.hash(&mut hasher);
+        }
+
+        for res in defs.res_directives.defs.iter().flatten()
+        {
+            res.reserve_size.hash(&mut hasher);
+        }
+
+        for align in defs.align_directives.defs.iter().flatten()
+        {
+            align.align_size.hash(&mut hasher);
+        }
+
+        for addr in defs.addr_directives.defs.iter().flatten()
+        {
+            format!("{:?}", addr.address).hash(&mut hasher);
+        }
+
+        TRACE.with(|trace|
+        {
+            let mut trace = trace.borrow_mut();
+
+            // Callers that never read the trace must not accumulate it
+            if trace.len() >= 65536
+            {
+                trace.clear();
+            }
+
+            trace.push(PassRecord {
+                iteration,
+                is_first,
+                is_last,
+                resolved,
+                state_digest: hasher.finish(),
+            });
+        });
+    }
+
+
+    pub fn take_trace() -> Vec<PassRecord>
+    {
+        TRACE.with(|trace| std::mem::take(&mut *trace.borrow_mut()))
+    }
+}
+
+
 pub enum ResolutionState
 {
     Unresolved,
@@ -280,6 +378,14 @@ pub fn resolve_once(
             }
         }
     }
+
+    #[cfg(hlorenzi_customasm_verif)]
+    verif::record_pass(
+        iteration_index,
+        is_first_iteration,
+        is_last_iteration,
+        matches!(resolution_state, asm::ResolutionState::Resolved),
+        defs);
 
     Ok(resolution_state)
 }
